@@ -593,7 +593,14 @@ def crop_u32(rep, prog, rule):
                     if ls[0] == "bin" and ls[1] == "Add" and is_param(rs, img) and (
                             (is_param(ls[2], pos) and is_param(ls[3], size)) or
                             (is_param(ls[3], pos) and is_param(ls[2], size))):
-                        wide = l != ls    # computed in a wider type
+                        def _widened(x):
+                            return x[0] == "cast" and x[1] == "IntToInt" and len(x) > 3 and \
+                                str(x[3]) in (("u64", "i64", "u128", "i128", "usize", "isize")
+                                              if prog.config.get("ptr_bits", 64) >= 64 else
+                                              ("u64", "i64", "u128", "i128"))
+                        # computed in a wider type: both addends are widened BEFORE they are added (a
+                        # cast of the finished u32 sum has wrapped already)
+                        wide = _widened(ls[2]) and _widened(ls[3])
                         if wide:
                             verdict = ("ok", "%s + %s computed in a wider type" % (pos, size))
                         elif verdict is None:
